@@ -44,7 +44,7 @@ def leafSch : Leaf → Sch
   | .ipv4if => .typ .string (some "ipv4interface")
   | .ipv6if => .typ .string (some "ipv6interface")
   | .path => .typ .string (some "path")
-  | .pattern => .any                                      -- not supported by the generator (finding K18): never reached
+  | .pattern => .typ .string (some "regex")              -- since fix F27 (was finding K18: no schema creator)
   | .bytes | .bytearray => .typ .string (some "base64")
 
 /-- the key under which a dataclass field appears in the schema: its alias if it has one -/
